@@ -11,6 +11,11 @@
  * (strcpy/strcat/strstr/memmove/strcmp/strlen/snprintf).  After every op: same length, same bytes, terminator inside
  * the allocation, expected exception (ValueError exactly for rem of an absent text), and for the observers
  * len/c_str/cmp/eq/mem/hash agreement with libc on the reference (hash: hash(s) == hash($S(ref)) == hash_data(ref)).
+ * After EVERY mutation also eq / cmp / hash against the reference text (the String's value is the C string that was written).
+ * Formatted writes (pf, show): the reference text is libc's own snprintf of the same format at the same offset of the
+ * reference buffer — the whole format in one call when it has at most two specifications and no `%$`, otherwise literal
+ * runs verbatim, `%` for `%%`, one snprintf per specification with the correctly typed C value and an independent show for
+ * `%$` — and the returned position must be pos + the number of characters written.
  * Out-of-bounds accesses are caught by ASan (the process dies: reported by the runner as a crash of this case).
  *
  * ops (objects are small integers 0..63, texts are hex, `-` = empty):
@@ -18,12 +23,23 @@
  *   assign k T | assigns k j | concat k T | append k T | concats k j | resize k n | clear k | rem k T | rems k j
  *   fmt k pos T      format_to(s, pos, "%s", T)        fmtl k pos T    format_to(s, pos, T) (T without '%')
  *   print k pos F…   print_to(s, pos, fmt, args) with fragments F = L<hex> literal | S<hex> "%s" | Q<hex> "%$" (show)
+ *   pf k pos F A…     print_to_with(s, pos, F, tuple(A…)) — what print_to(s, pos, F, A…) expands to — with a general format F
+ *                     (hex) over literal text, `%%`, `%s` (`-`, width, precision), `%c` (`-`, width), `%d %i` (`-`, `0`, `+`, width, `l`),
+ *                     `%u %x %X %o` (`-`, `0`, width, `l`) and `%$`; arguments A ::= i<int64> | s<hex> | t<n> A1 … An (a Tuple, nested ≤ 3)
+ *   show k pos A      show_to(A, s, pos)
+ *   remi k n          rem(s, $I(n)): an operand without a C string — ClassError, nothing changed (String_Rem after e60e6ec)
+ *   fmtrej k pos      format_to(s, pos, "%lc", U+10FFFF): libc rejects the format in the C locale — a negative value is returned and
+ *                     the String is untouched (String_Format_To after a626877)
+ *   pfrej k pos T     print_to_with(s, pos, T "%lcZ", tuple($I(0x10FFFF))): T is written, then FormatError leaves
+ *   scanw k pos       scan_from(s, pos, "%s", word) reading from the String at pos <= len (observer)
  *   len k | cstr k | cmp k T | cmps k j | eq k T | mem k T | hash k
  *   alias <concat|append|assign|rem|mem|cmp> T   the aliased call op(s, s) in a forked child; reported on I lines only
  */
 #include <stdlib.h>
 #include <string.h>
 #include <stddef.h>
+#include <errno.h>
+#include <wchar.h>
 #if defined(__has_feature)
 #  if __has_feature(address_sanitizer)
 #    define V_ASAN 1
@@ -100,6 +116,9 @@ static void dump(const char* name, int k, const char* outcome) {
   if (l + 1 > cap) X("sig=str-term line=%zu what=after %s the terminator is at %zu outside the allocation of %zu", lineno, name, l, cap);
   if (len(sobj[k]) != rl) X("sig=str-len line=%zu what=len() is %zu, reference %zu", lineno, len(sobj[k]), rl);
   if (c_str(sobj[k]) != v) X("sig=str-content line=%zu what=c_str() is not the buffer", lineno);
+  if (!eq(sobj[k], $S(rtxt[k])) || cmp(sobj[k], $S(rtxt[k])) != 0 || cmp($S(rtxt[k]), sobj[k]) != 0)
+    X("sig=str-cmp line=%zu what=after %s the String does not compare equal to the libc reference text", lineno, name);
+  if (hash(sobj[k]) != hash_data(rtxt[k], rl)) X("sig=str-hash line=%zu what=after %s hash() differs from the hash of the libc reference text", lineno, name);
 }
 
 static int sign(int x) { return x < 0 ? -1 : x > 0 ? 1 : 0; }
@@ -115,6 +134,90 @@ static size_t show_ref(const char* t, char* out) {
     if (e) { out[n++] = e[0]; out[n++] = e[1]; } else out[n++] = *t;
   }
   out[n++] = '"'; out[n] = 0; return n;
+}
+
+/* ---- arguments of pf / show: Int, String, Tuple (nested) */
+typedef struct PArg { char kind; long long i; char* s; int n; struct PArg* items[6]; var obj; } PArg;
+static void parg_free(PArg* a) { if (!a) return; for (int i = 0; i < a->n; i++) parg_free(a->items[i]); free(a->s); free(a); }
+static PArg* parg_parse(char** tok, int nt, int* idx, int depth) {
+  if (*idx >= nt) return NULL;
+  const char* t = tok[(*idx)++];
+  PArg* a = calloc(1, sizeof(PArg)); a->kind = t[0];
+  if (t[0] == 'i') {
+    const char* d = t + 1; if (*d == '-') d++;
+    size_t nd = strlen(d); if (nd < 1 || nd > 19 || strspn(d, "0123456789") != nd) { parg_free(a); return NULL; }
+    errno = 0; a->i = strtoll(t + 1, NULL, 10); if (errno) { parg_free(a); return NULL; }
+  } else if (t[0] == 's') {
+    a->s = malloc(MAXT); if (dehex(t + 1, a->s) < 0) { parg_free(a); return NULL; }
+  } else if (t[0] == 't') {
+    if (depth >= 3 || t[1] < '0' || t[1] > '6' || t[2]) { parg_free(a); return NULL; }
+    int n = t[1] - '0';
+    for (int i = 0; i < n; i++) { PArg* c = parg_parse(tok, nt, idx, depth + 1); if (!c) { parg_free(a); return NULL; } a->items[a->n++] = c; }
+  } else { parg_free(a); return NULL; }
+  return a;
+}
+static size_t parg_bytes(PArg* a) { size_t n = a->kind == 's' ? strlen(a->s) : 0; for (int i = 0; i < a->n; i++) n += parg_bytes(a->items[i]); return n; }
+static void parg_build(PArg* a) {
+  if (a->kind == 'i') a->obj = new_raw(Int, $I(a->i));
+  else if (a->kind == 's') a->obj = new_raw(String, $S(a->s));
+  else { a->obj = new_raw(Tuple); for (int i = 0; i < a->n; i++) { parg_build(a->items[i]); push(a->obj, a->items[i]->obj); } }
+}
+static void parg_unbuild(PArg* a) {
+  for (int i = 0; i < a->n; i++) parg_unbuild(a->items[i]);
+  if (a->obj) { del_raw(a->obj); a->obj = NULL; }
+}
+/* show, written independently for the oracle: Int as %ld, String quoted and escaped, Tuple as tuple(a, b) */
+static size_t parg_show(PArg* a, char* out) {
+  if (a->kind == 'i') return (size_t)sprintf(out, "%ld", (long)a->i);
+  if (a->kind == 's') return show_ref(a->s, out);
+  size_t n = (size_t)sprintf(out, "tuple(");
+  for (int i = 0; i < a->n; i++) { n += parg_show(a->items[i], out + n); if (i + 1 < a->n) { out[n++] = ','; out[n++] = ' '; } }
+  out[n++] = ')'; out[n] = 0; return n;
+}
+/* reference reading of the format: validates it against the grammar of the op (see the header), checks the argument
+ * classes, writes the expected text; cls[i] = C type of the i-th consumed argument: I int, L long, S char*, $ show.
+ * Returns the number of specifications or -1 (outside the grammar). */
+static int ref_format(const char* f, PArg** args, int na, char* out, size_t outcap, size_t* outlen, char* cls) {
+  size_t n = 0; int ns = 0; static char tmp[2 * MAXT + 256]; char spec[16];
+  while (*f) {
+    if (*f != '%') { size_t r = strcspn(f, "%"); if (n + r >= outcap) return -1; memcpy(out + n, f, r); n += r; f += r; continue; }
+    if (f[1] == '%') { if (n + 1 >= outcap) return -1; out[n++] = '%'; f += 2; continue; }
+    const char* p = f + 1; int left = 0, zero = 0, plus = 0, prec = 0, lng = 0;
+    while (*p == '-' || *p == '0' || *p == '+') { if (*p == '-') left = 1; else if (*p == '0') zero = 1; else plus = 1; p++; }
+    if (*p >= '0' && *p <= '9') { p++; if (*p >= '0' && *p <= '9') p++; }
+    if (*p == '.' && p[1] >= '0' && p[1] <= '9') { prec = 1; p += 2; if (*p >= '0' && *p <= '9') p++; }
+    if (*p == 'l') { lng = 1; p++; }
+    char c = *p; (void)left;
+    if (c == 0 || !strchr("sdiuxXoc$", c) || (size_t)(p - f) + 2 > sizeof spec) return -1;
+    if (ns >= na) return -1;
+    PArg* a = args[ns];
+    memcpy(spec, f, (size_t)(p - f) + 1); spec[p - f + 1] = 0;
+    size_t r;
+    if (c == '$') { if (p != f + 1) return -1; r = parg_show(a, tmp); cls[ns] = '$'; }
+    else if (c == 's') { if (zero || plus || lng || a->kind != 's') return -1; r = (size_t)snprintf(tmp, sizeof tmp, spec, a->s); cls[ns] = 'S'; }
+    else {
+      if (a->kind != 'i' || prec) return -1;
+      if (c == 'c') { if (zero || plus || lng || (unsigned char)a->i == 0) return -1; r = (size_t)snprintf(tmp, sizeof tmp, spec, (int)a->i); cls[ns] = 'I'; }
+      else if (c == 'd' || c == 'i') { r = lng ? (size_t)snprintf(tmp, sizeof tmp, spec, (long)a->i) : (size_t)snprintf(tmp, sizeof tmp, spec, (int)a->i); cls[ns] = lng ? 'L' : 'I'; }
+      else { if (plus) return -1; r = lng ? (size_t)snprintf(tmp, sizeof tmp, spec, (unsigned long)a->i) : (size_t)snprintf(tmp, sizeof tmp, spec, (unsigned)a->i); cls[ns] = lng ? 'L' : 'I'; }
+    }
+    if (n + r >= outcap) return -1;
+    memcpy(out + n, tmp, r); n += r; ns++; f = p + 1;
+  }
+  out[n] = 0; *outlen = n; return ns;
+}
+/* libc on the WHOLE format in one call (at most two specifications, none of them `%$`); returns -1 when not applicable */
+static int ref_whole(const char* fmt, PArg** a, int ns, const char* cls, char* out, size_t cap) {
+  if (ns > 2 || memchr(cls, '$', (size_t)ns)) return -1;
+  if (ns == 0) return snprintf(out, cap, fmt, 0);
+  #define W1(T0, v0) return snprintf(out, cap, fmt, (T0)(v0))
+  #define W2(T0, v0, T1, v1) return snprintf(out, cap, fmt, (T0)(v0), (T1)(v1))
+  if (ns == 1) { if (cls[0] == 'I') W1(int, a[0]->i); if (cls[0] == 'L') W1(long, a[0]->i); W1(char*, a[0]->s); }
+  if (cls[0] == 'I') { if (cls[1] == 'I') W2(int, a[0]->i, int, a[1]->i); if (cls[1] == 'L') W2(int, a[0]->i, long, a[1]->i); W2(int, a[0]->i, char*, a[1]->s); }
+  if (cls[0] == 'L') { if (cls[1] == 'I') W2(long, a[0]->i, int, a[1]->i); if (cls[1] == 'L') W2(long, a[0]->i, long, a[1]->i); W2(long, a[0]->i, char*, a[1]->s); }
+  if (cls[1] == 'I') W2(char*, a[0]->s, int, a[1]->i); if (cls[1] == 'L') W2(char*, a[0]->s, long, a[1]->i); W2(char*, a[0]->s, char*, a[1]->s);
+  #undef W1
+  #undef W2
 }
 
 static void alias_probe(const char* what, const char* text, const char* hex) {
@@ -160,8 +263,8 @@ int main(int argc, char** argv) {
   for (size_t li = 0; li < n; li++) {
     char* l = lines[li]; lineno = li + 1;
     if (v_skippable(l)) continue;
-    char* tok[40]; int nt = 0; char* save = NULL; char* copyl = strdup(l);
-    for (char* p = strtok_r(copyl, " ", &save); p && nt < 40; p = strtok_r(NULL, " ", &save)) tok[nt++] = p;
+    char* tok[64]; int nt = 0; char* save = NULL; char* copyl = strdup(l);
+    for (char* p = strtok_r(copyl, " ", &save); p && nt < 64; p = strtok_r(NULL, " ", &save)) tok[nt++] = p;
     if (nt == 0) { free(copyl); continue; }
     const char* op = tok[0];
     nops++;
@@ -281,6 +384,89 @@ int main(int argc, char** argv) {
       if (!exc && ret != (int)(pos + el)) X("sig=str-fmt-ret line=%zu what=print_to returned %d, expected %zu", lineno, ret, pos + el);
       char oc[48]; snprintf(oc, sizeof oc, "ret=%d", ret);
       nmut++; dump(op, k, exc ? v_exc_name(exc) : oc);
+    } else if ((!strcmp(op, "pf") && nt >= 4) || (!strcmp(op, "show") && nt >= 4)) {
+      NEED_LIVE(k); size_t pos; NEED_NUM(2, pos);
+      int isshow = op[0] == 's';
+      if (!isshow) { NEED_TEXT(3, fmtb); }
+      PArg* args[8]; int na = 0, idx = isshow ? 3 : 4, bad = 0;
+      while (idx < nt && !bad) { if (na == 8) { bad = 1; break; } PArg* a = parg_parse(tok, nt, &idx, 1); if (!a) bad = 1; else args[na++] = a; }
+      size_t el = 0, ab = 0; char cls[8]; int ns = 0;
+      for (int i = 0; i < na; i++) ab += parg_bytes(args[i]);
+      if (ab > 4096) bad = 1;                                           /* keeps every reference buffer in bounds */
+      if (!bad && isshow) { if (na != 1) bad = 1; else el = parg_show(args[0], expect); }
+      if (!bad && !isshow) { ns = ref_format(fmtb, args, na, expect, sizeof expect, &el, cls); if (ns < 0) bad = 1; }
+      if (bad) { for (int i = 0; i < na; i++) parg_free(args[i]); O("bad-op"); free(copyl); continue; }
+      if (!isshow) {
+        static char whole[4 * MAXT];
+        int wl = ref_whole(fmtb, args, ns, cls, whole, sizeof whole);
+        if (wl >= 0) {
+          if ((size_t)wl != el || memcmp(whole, expect, el) != 0) I("warning line=%zu the per-specification reference differs from snprintf of the whole format; using the latter", lineno);
+          if ((size_t)wl < sizeof whole) { memcpy(expect, whole, (size_t)wl + 1); el = (size_t)wl; }
+        }
+      }
+      var items[9];
+      for (int i = 0; i < na; i++) { parg_build(args[i]); items[i] = args[i]->obj; }
+      items[na] = Terminal;
+      int ret = -1;
+      if (isshow) V_TRY(exc, ret = show_to(items[0], sobj[k], (int)pos));
+      else V_TRY(exc, ret = print_to_with(sobj[k], (int)pos, fmtb, $(Tuple, items)));
+      size_t rl = strlen(rtxt[k]);
+      /* libc at the same offset of the reference buffer; an empty format makes no call and leaves the text alone */
+      if (pos <= rl && (isshow || fmtb[0])) { ref_reserve(k, pos + el); snprintf(rtxt[k] + pos, el + 1, "%s", expect); }
+      if (exc) X("sig=str-exc line=%zu what=%s raised %s", lineno, isshow ? "show_to" : "print_to_with", v_exc_name(exc));
+      if (!exc && ret != (int)(pos + el)) X("sig=str-fmt-ret line=%zu what=%s returned position %d, but it started at %zu and wrote %zu characters", lineno, isshow ? "show_to" : "print_to_with", ret, pos, el);
+      char oc[48]; snprintf(oc, sizeof oc, "ret=%d", ret);
+      nmut++; dump(op, k, exc ? v_exc_name(exc) : oc);
+      for (int i = 0; i < na; i++) { parg_unbuild(args[i]); parg_free(args[i]); }
+    } else if (!strcmp(op, "remi") && nt == 3) {
+      NEED_LIVE(k);
+      PArg* a = NULL; int idx = 2; char itok[40]; snprintf(itok, sizeof itok, "i%s", tok[2]); char* one[1] = { itok };
+      idx = 0; a = strlen(tok[2]) < 30 ? parg_parse(one, 1, &idx, 1) : NULL;
+      if (!a) { O("bad-op"); free(copyl); continue; }
+      V_TRY(exc, rem(sobj[k], $I(a->i)));
+      parg_free(a);
+      /* an Int has no C string: nothing can be removed, the call must say so and must not touch the String */
+      if (exc != ClassError) X("sig=str-rem-exc line=%zu what=rem of an object without a C string: %s instead of ClassError", lineno, v_exc_name(exc));
+      if (exc) nexc++;
+      nmut++; dump(op, k, exc ? v_exc_name(exc) : "ok");
+    } else if (!strcmp(op, "fmtrej") && nt == 3) {
+      NEED_LIVE(k); size_t pos; NEED_NUM(2, pos);
+      int probe = snprintf(NULL, 0, "%lc", (wint_t)0x10FFFF);
+      if (probe >= 0) I("warning line=%zu libc accepts %%lc of U+10FFFF in this locale: fmtrej is an ordinary write here", lineno);
+      int ret = 0;
+      V_TRY(exc, ret = format_to(sobj[k], (int)pos, "%lc", (wint_t)0x10FFFF));
+      if (exc) X("sig=str-exc line=%zu what=format_to of a format libc rejects raised %s", lineno, v_exc_name(exc));
+      if (!exc && probe < 0 && ret >= 0) X("sig=str-fmt-ret line=%zu what=libc rejects the format, format_to returned %d", lineno, ret);
+      char oc[48]; if (ret < 0) strcpy(oc, "rejected"); else snprintf(oc, sizeof oc, "ret=%d", ret);
+      nmut++; dump(op, k, exc ? v_exc_name(exc) : oc);                  /* the reference is unchanged: so must the String be */
+    } else if (!strcmp(op, "pfrej") && nt == 4) {
+      NEED_LIVE(k); size_t pos; NEED_NUM(2, pos); NEED_TEXT(3, t1);
+      if (strchr(t1, '%')) { O("bad-op"); free(copyl); continue; }
+      snprintf(fmtb, sizeof fmtb, "%s%%lcZ", t1);
+      var big = new_raw(Int, $I(0x10FFFF)); var items[2] = { big, Terminal };
+      int ret = -1;
+      V_TRY(exc, ret = print_to_with(sobj[k], (int)pos, fmtb, $(Tuple, items)));
+      del_raw(big);
+      size_t rl = strlen(rtxt[k]);
+      if (pos <= rl && t1[0]) { ref_reserve(k, pos + strlen(t1)); snprintf(rtxt[k] + pos, strlen(t1) + 1, "%s", t1); }
+      if (exc != FormatError) X("sig=str-exc line=%zu what=print_to_with with a specification libc rejects: %s instead of FormatError", lineno, v_exc_name(exc));
+      nmut++; dump(op, k, exc ? v_exc_name(exc) : "ok");
+    } else if (!strcmp(op, "scanw") && nt == 3) {
+      NEED_LIVE(k); size_t pos; NEED_NUM(2, pos); nobs++;
+      size_t L = strlen(valof(k));
+      if (pos > L) { O("bad-op"); free(copyl); continue; }
+      var tgt = new_raw(String); resize(tgt, L + 1);
+      int ret = -1;
+      V_TRY(exc, ret = scan_from(sobj[k], (int)pos, "%s", tgt));
+      char pre[40]; const char* w = exc ? "" : c_str(tgt); hexpre(w, strlen(w), pre);
+      O("scanw %d exc=%s ret=%d n=%zu w=%s", k, v_exc_name(exc), exc ? -1 : ret, strlen(w), pre);
+      if (pos <= strlen(rtxt[k])) {
+        int off = 0; int r = sscanf(rtxt[k] + pos, "%s%n", t1, &off);
+        if (r < 1) { if (exc != FormatError) X("sig=str-scan line=%zu what=nothing to read at %zu of the reference, scan_from gave %s", lineno, pos, v_exc_name(exc)); }
+        else if (exc) X("sig=str-scan line=%zu what=scan_from raised %s, sscanf on the reference reads a word", lineno, v_exc_name(exc));
+        else if (ret != (int)pos + off || strcmp(w, t1) != 0) X("sig=str-scan line=%zu what=scan_from read %zu chars up to %d, sscanf on the reference %zu chars up to %d", lineno, strlen(w), ret, strlen(t1), (int)pos + off);
+      }
+      del_raw(tgt);
     } else if (!strcmp(op, "len") && nt == 2) {
       NEED_LIVE(k); nobs++;
       size_t r = len(sobj[k]);
